@@ -228,7 +228,7 @@ Proof.
   cbn in I1. set (m := mint_att P c (r_d s2) ma) in *.
   assert (HB : BlkInv s3) by (apply V4, I4; reflexivity).
   exists v3. destruct V2 as (W1 & W2 & W3). splits; auto.
-  unfold validate_block, block_of_run, block_of. cbn [b_txs b_msg_ids b_inbox_root].
+  unfold validate_block, block_of_run, block_of. cbn [b_txs b_msg_ids b_inbox_root b_root_ok].
   rewrite V3, I1, map_app. cbn [map]. rewrite map_app. cbn [map]. rewrite last_last.
   assert (HMt : t_mint (a_tx (vatt m)) = true).
   { unfold vatt, exec_form, m, mint_att. cbn. destruct (a_vm ma); reflexivity. }
@@ -237,7 +237,7 @@ Proof.
   { unfold vatt, exec_form, m, mint_att. cbn. destruct (a_vm ma); reflexivity. }
   rewrite HP.
   rewrite (validate_txs_app _ _ _ _ _ _ _ I2). cbn [validate_txs]. fold m. rewrite V1.
-  unfold check_block_matches. cbn [b_txs b_msg_ids b_inbox_root].
+  unfold check_block_matches. cbn [b_txs b_msg_ids b_inbox_root b_root_ok].
   rewrite W2. unfold BlkInv in HB. rewrite HB, V3, I1.
   rewrite !map_app. cbn [map]. rewrite !map_map.
   assert (HE : map (fun x => a_tx (vatt x)) inc = map exec_form inc) by reflexivity.
